@@ -10,5 +10,7 @@ CONSTANTS
   SharedCatchPrev = FALSE
   AdvSet = {}
   MaxTime = 0
+  Keep = TRUE
+  WithEvict = TRUE
 POSTCONDITION TDone
 CHECK_DEADLOCK FALSE
